@@ -491,6 +491,23 @@ def case(draw, with_links=True, max_res=8, mixed_nrexcl=False, routes=("json", "
             links.append(draw(link(blocks, label_pool, allow_replace=allow_replace, prefer=prefer,
                                    bonded_only=bonded_only, nonbond_sections=nonbond,
                                    atype_replace=atype_replace, removal_bias=removal_bias)))
+        if len(blocks) >= 2 and not atype_replace and not removal_bias and draw(st.integers(0, 5)) == 0:
+            # twin links: the same atom names on the same residue names, told apart only by the type the first
+            # atom must have (each applies where its type is found)
+            ba, bb = blocks[0], blocks[1]
+            common = [a["name"] for a in ba["atoms"] if any(x["name"] == a["name"] and x["type"] != a["type"] for x in bb["atoms"])]
+            both = [a["name"] for a in ba["atoms"] if any(x["name"] == a["name"] for x in bb["atoms"])]
+            if common and both and len({a["resid"] for a in ba["atoms"]}) == 1 and len({a["resid"] for a in bb["atoms"]}) == 1:
+                x = draw(st.sampled_from(common))
+                y = draw(st.sampled_from(both))
+                ta = [a["type"] for a in ba["atoms"] if a["name"] == x][0]
+                tb = [a["type"] for a in bb["atoms"] if a["name"] == x][0]
+                for t in (ta, tb):
+                    links.append({"resname": f"{ba['name']}|{bb['name']}",
+                                  "atoms": [{"key": x, "attrs": {"atype": t}}, {"key": "+" + y, "attrs": {}}],
+                                  "inter": [{"sec": "bonds", "atoms": [x, "+" + y], "params": ["1", _param(draw), _param(draw)],
+                                             "meta": {}}],
+                                  "edges": [], "non_edges": [], "patterns": []})
         if links and draw(st.integers(0, 4)) == 0:
             # one link is meant for molecules with a certain attribute only (as the martini protein links that ask
             # for scfix / extdih): gen_params molecules carry none, so it applies nowhere
